@@ -20,6 +20,9 @@ def run(ctx: Ctx) -> None:
     with ctx.only("T5.jacobian"):  # the bracket J_v u - J_u v on linear fields, for every documented form of the spacing argument (shared with C12)
         t5_derivs.run_derivatives(ctx)
     ctx.floor("T5.jacobian", 6)
+    with ctx.only("T5.first-order"):  # ... in every derivative mode the bracket can be asked for (prewitt / sobel averaging must be normalised)
+        t5_derivs.run_derivatives(ctx)
+    ctx.floor("T5.first-order", 12)
     t5_derivs.run_gaussian_spacing(ctx)
     ctx.floor("T5.dtype", 8)
     ctx.floor("T5.gaussian-spacing", 2)
@@ -46,6 +49,7 @@ def mutants(prog):
         ("finite differences: float32 step size", "deepali.core.image", "spatial_derivatives", "if not data.is_floating_point():\n        data = data.float()", "data = data.float()", "T5.dtype"),
         ("gaussian derivatives: spacing of the last axis", "deepali.core.image", "spatial_derivatives", "denom = spacing.narrow(1, sdim, 1)", "denom = spacing.narrow(1, D - 1, 1)", "T5.gaussian-spacing"),
         ("jacobian: a spacing sequence is read in tensor-axis order", Fm, "jacobian_dict", "kwargs = dict(mode=mode, sigma=sigma, spacing=spacing, stride=stride)", "kwargs = dict(mode=mode, sigma=sigma, spacing=tuple(reversed(spacing)) if isinstance(spacing, (tuple, list)) else spacing, stride=stride)", "T5.jacobian"),
+        ("sobel / prewitt averaging kernel not normalised", "deepali.core.image", "spatial_derivatives", "avg_kernel /= avg_kernel.sum()", "avg_kernel.div(avg_kernel.sum())", "T5.first-order"),
     ]
     for name, mod, fn, old, new, expect in specs:
         ov = source_sub(prog, mod, fn, old, new)
